@@ -49,7 +49,7 @@ def decode(p):
 
 
 SPEC = dict(
-    lean_modules=["Ecal.Props.C19"],
+    lean_modules=["Ecal.Props.C19", "Ecal.Props.C19b"],
     shards=16,
     extract=extract,
     extra_args=extra_args,
@@ -82,7 +82,7 @@ SPEC = dict(
         "float32 conversion: Num.toF32 is IEEE round-to-nearest-even with subnormals, overflow and signed zero; proved exact for representable values (float32_exact_when_representable), the rounding itself is tied by the correspondence run (0.1, 2^24+1, 2^31-1, MaxFloat32+, 1e-40, 1e-46)",
         "the go/ast extractor of three source facts (harness C19 -tool, go/cmd/harness/c19extract.go), decided semantically and three-valued: Run defers a function (literal or same-package) that itself calls recover() and assigns the named error result; the argument count is compared with NumIn() before Call (Run or one level of helpers); plugin functions are registered as ECALFunctionAdapter. Only a refuted fact breaks an obligation; an unestablished one is assumed, noted, and answered with an amplified search",
         "the harness sets stdlib.pluginTestLookup (unexported test hook) by go:linkname; a real plugin (.so built with -buildmode=plugin, opened by plugin.Open) cannot be built in the offline sandbox (needs cgo and the plugin toolchain; the harness is built with CGO_ENABLED=0), so plugin.Open itself and the symbol lookup of a real shared object are not exercised — everything after the lookup (type assertion to util.ECALPluginFunction, wrapping, registration, calls) is",
-        "the deferred function of Run does not panic itself: it formats the recovered value with fmt's %v, which guards panicking Error() methods (exercised: panic values typed-nil error and an error whose Error() panics; not a source fact)",
+        "the deferred function of Run does not panic itself: it formats the recovered value with fmt's %v, which guards panicking Error() methods — proved for the MODEL of the handler over five kinds of panic value (deferred_handler_cannot_panic, finish_is_handler); that the source uses %v and nothing else on the recovered value is not a regenerated fact but tied by the run (panic values typed-nil error and an error whose Error() panics; seeded C19d-1)",
         "out-of-range float->integer conversion is implementation-defined in Go; with the range check of fixes/C19-argument-out-of-range.patch the code never performs one (proved for the model: out_of_range_argument_is_error). The harness still marks such arguments (`!`) and the model must agree with the marker; the `oob` oracle parameter of the model is not consulted any more",
         "interpreter/rt_identifier.go executeFunction: the Debugger hooks (VisitStepInState / VisitStepOutState) are not attached in the runs and not modelled; rerr.Type = err for iterator error texts is not modelled",
         "bodies of the generated stdlib (math.*) are assumed not to panic (checked by every run); math.jn/math.yn with |order| > 256 are left out (slow bodies)",
@@ -120,7 +120,9 @@ META = dict(
                 "handed back), because the adapter's parameter check compares types for identity. Also passed on raw, by design: Go numbers a function "
                 "has put INTO a []interface{} / map[interface{}]interface{}, complex numbers, struct fields. The theorems describe /repo WITH fixes/C19-runtime-error-without-type.patch and fixes/C19-argument-out-of-range.patch (a number outside the "
                 "parameter kind's range is an error: out_of_range_argument_is_error; before, it was silently wrapped, platform dependent). "
-                "NOT checked: that the error is 'descriptive' — message texts are never compared, 'Error: <nil>' (panic(nil), typed-nil panic value) passes. "
+                "'A descriptive error' has a formal reading in the model only: run_error_is_descriptive (Props/C19b.lean) proves that each of Run's own three errors "
+                "carries the right DATA (the call's counts; the first offending position, its parameter type and its argument's type / number), tied to "
+                "the driver's model by erasure (buildArgsD_erase). The Go message TEXTS are still never compared ('Error: <nil>' for panic(nil) passes). "
                 "interpreter_never_crashes / try_except_never_crashes range over the SIX kinds of error value the model distinguishes and end at "
                 "executeFunction's return resp. at try/except's reading of Type; other consumers of the error (sink error maps) are not modelled. "
                 "Whole classes of well-formed calls are always answered with an error by the code (the property text permits 'results OR a descriptive "
